@@ -152,6 +152,14 @@ func checkUnify(c *run.Ctx, ss, ts []*ref.Ty) {
 	}
 	m := map[string]*types.Type{}
 	label := fmt.Sprintf("Unify(%s, %s)", tupleSexp(ss), tupleSexp(ts))
+	snapS, snapT := s.String(), t.String()
+	defer func() {
+		// the operands are the caller's (a registered function's parameter
+		// types, an environment's types): unification must not rewrite them
+		if s.String() != snapS || t.String() != snapT {
+			c.Violation("unify-mutates-operand", fmt.Sprintf("%s rewrote its operands: %s / %s became %s / %s", label, snapS, snapT, s.String(), t.String()), nil)
+		}
+	}()
 	var res *types.Type
 	if err := func() (err string) {
 		defer func() {
@@ -204,6 +212,43 @@ func checkUnify(c *run.Ctx, ss, ts []*ref.Ty) {
 		if want != (res != nil) {
 			c.Violation("unify-completeness", fmt.Sprintf("%s = %v, but an instantiation of the pattern %s", label, res != nil, map[bool]string{true: "exists", false: "does not exist"}[want]), nil)
 			return
+		}
+	}
+	if ground && botFree && len(ss) == len(ts) && len(leftVars) > 0 {
+		// the same pattern object against a second, different instance
+		inst := map[string]*ref.Ty{}
+		alt := []*ref.Ty{ref.TStr, ref.TList(ref.TBool), ref.TNum, ref.TObj(ref.F("z", ref.TTime))}
+		k := 0
+		for v := range leftVars {
+			inst[v] = alt[(len(v)+k+len(ss))%len(alt)]
+			k++
+		}
+		ts2 := make([]*ref.Ty, len(ss))
+		okInst := true
+		for i := range ss {
+			ts2[i] = ref.Subst(ss[i], inst)
+			if !keysOK(ts2[i]) {
+				okInst = false
+			}
+		}
+		if okInst {
+			ys := make([]*types.Type, len(ts2))
+			for i, x := range ts2 {
+				ys[i] = bridge.ToTypeShared(x, vars)
+			}
+			t2 := ys[0]
+			if len(ys) > 1 {
+				t2 = types.Tuple(ys)
+			}
+			var res2 *types.Type
+			func() {
+				defer func() { recover() }()
+				res2 = types.Unify(s, t2, map[string]*types.Type{})
+			}()
+			c.Count("pattern_reused", 1)
+			if res2 == nil {
+				c.Violation("unify-completeness", fmt.Sprintf("%s was followed by Unify of the same pattern object with its instance %s, which fails", label, tupleSexp(ts2)), nil)
+			}
 		}
 	}
 	if res == nil {
@@ -542,7 +587,7 @@ func init() {
 	run.Register(&run.Spec{
 		ID: "C17", Run: runC17, Level: "exploration",
 		Rule: "all pairs of types of depth <= 1 over {num,str,bool,time,'a,'b,⊥} x {list, maybe, map, obj with 1-2 fields in both orders, fun} (231 types, 53 361 pairs, exhaustive: true), pairs of depth <= 2 over a reduced operand pool (all in thorough, 1/23 in quick), random 2-3 tuples with repeated variables on both sides and ground instances, random types to depth 4 with objects of up to 9 fields and tuples of up to 6 against tweaked copies (permuted fields, changed leaves, instantiations), Equals with one physical node used for two occurrences; fresh nodes per side as the checker presents them; " +
-			"monitors: Equals reflexive / symmetric / == reference structural equality; on Unify success: own occurs check over the returned substitution, substituted sides equal (⊥ on the right may face anything); pattern vs variable-free ⊥-free type: success iff the reference one-way matcher finds an instantiation. distinct = distinct ordered pair",
+			"monitors: Equals reflexive / symmetric / == reference structural equality; Unify never rewrites its operands and a pattern object stays usable for a second instance; on Unify success: own occurs check over the returned substitution, substituted sides equal (⊥ on the right may face anything); pattern vs variable-free ⊥-free type: success iff the reference one-way matcher finds an instantiation. distinct = distinct ordered pair",
 		Assume:    []string{"argument tuples only as the outermost constructor", "no physical sharing between the two sides of Unify (the checker substitutes the left side freshly)"},
 		MinEvents: 50000, EventKey: "unify_pairs",
 	})
